@@ -135,6 +135,29 @@ Theorem C07_numbers_cleanup_vs_never c crit k t0 off ops :
   end.
 Proof. exact (numbers_cleanup_vs_never c crit k t0 off ops). Qed.
 
+Require Import FL.Flw.WorldPar FL.Flw.LinkSim FL.Flw.BgSim.
+(* the same for cleanup in the BACKGROUND thread, under the model's / harness's scheduling (each request is finished before the next operation) *)
+Theorem C07_numbers_cleanup_bg c crit k n m t0 off ops closed cur :
+  numkcfg (nobg c) crit k -> klim k = Some (n, m) -> Forall basic_op ops ->
+  sfx_ok (c_spec c) -> (N.of_nat (length closed) <= 100000)%N ->
+  a_run None ops (snd (run (fst (step (sys0 t0 off) (OStart (nobg c)))) ops)) = Some (closed, cur) ->
+  let f := wfs (s_w (fst (run (sys0 t0 off) (OStart c :: ops ++ [OStop])))) in
+  let L := length closed in let lo := L - (n + m) in let mid := L - n in
+  concat closed ++ cur = written ops
+  /\ (forall x, (exists j, lookup f x = Some j) <->
+        x = cname c \/ (exists i, mid <= i < L /\ x = rname c i) \/ (exists i, lo <= i < mid /\ x = gname c i))
+  /\ NoDup (dir_names f)
+  /\ L - mid <= n /\ mid - lo <= m
+  /\ (forall off', list_log_gz off' (c_spec c) (fixed0 c) f IFNum = Some (listing c lo mid L))
+  /\ (forall i, mid <= i < L -> lookup f (gname c i) = None /\
+        exists fl, file_of f (rname c i) = Some fl /\ fdata fl = nth i closed [] /\ fgz fl = 0%N /\ fdir fl = false)
+  /\ (forall i, lo <= i < mid -> lookup f (rname c i) = None /\
+        exists fl, file_of f (gname c i) = Some fl /\ fdata fl = nth i closed [] /\ fgz fl = 1%N /\ fdir fl = false)
+  /\ (forall i, i < lo -> lookup f (rname c i) = None /\ lookup f (gname c i) = None)
+  /\ written ops = concat (firstn lo closed) ++ concat (map (fun i => data_at f (entry c mid i)) (seq lo (L - lo))) ++ cur
+  /\ (exists fl, file_of f (cname c) = Some fl /\ fdata fl = cur /\ fgz fl = 0%N /\ fdir fl = false).
+Proof. exact (numbers_cleanup_bg c crit k n m t0 off ops closed cur). Qed.
+
 Check C07_numbers_cleanup. Check C07_numbers_cleanup_vs_never.
 Print Assumptions C07_numbers_cleanup.
 Print Assumptions C07_numbers_cleanup_vs_never.
@@ -147,3 +170,5 @@ Print Assumptions C07_listing_restart_order.
 Print Assumptions C07_listing_plain_last.
 Print Assumptions C07_tail_sound.
 Print Assumptions C07_limits_sound.
+Check C07_numbers_cleanup_bg.
+Print Assumptions C07_numbers_cleanup_bg.
